@@ -1,4 +1,4 @@
-package main
+package sx
 
 import (
 	"strings"
@@ -187,7 +187,7 @@ func (t Target) Coq() string {
 // ---- generation ---------------------------------------------------------------------------------
 
 // vocab is what a document offers to aim targets at.
-type vocab struct {
+type Vocab struct {
 	paths  [][]NT      // name chains of all elements (root..node)
 	facts  [][]*PExp   // per path: atomic predicates that hold of that element
 	names  []NT        // element names seen
@@ -195,7 +195,7 @@ type vocab struct {
 	values []string    // text / attribute / scalar values seen
 }
 
-func (v *vocab) name(r *vh.Rng) NT {
+func (v *Vocab) name(r *vh.Rng) NT {
 	if len(v.names) == 0 || r.Chance(0.1) {
 		return NT{Local: r.PickStr("n", "x", "zz")}
 	}
@@ -205,14 +205,14 @@ func (v *vocab) name(r *vh.Rng) NT {
 	return v.names[r.Pick(len(v.names))]
 }
 
-func (v *vocab) value(r *vh.Rng) string {
+func (v *Vocab) value(r *vh.Rng) string {
 	if len(v.values) == 0 || r.Chance(0.15) {
 		return r.PickStr("1", "", "no such", "a]b", "it's", `say "hi"`, "[x='1']")
 	}
 	return v.values[r.Pick(len(v.values))]
 }
 
-func genPExp(r *vh.Rng, v *vocab, depth int) *PExp {
+func genPExp(r *vh.Rng, v *Vocab, depth int) *PExp {
 	k := r.Pick(13)
 	if depth >= 2 && k >= 7 {
 		k = r.Pick(7)
@@ -264,9 +264,9 @@ func genPExp(r *vh.Rng, v *vocab, depth int) *PExp {
 	}
 }
 
-// genTarget aims at an existing element most of the time: its absolute path with some steps
+// GenTarget aims at an existing element most of the time: its absolute path with some steps
 // turned into wildcards or collapsed into "//".
-func genTarget(r *vh.Rng, v *vocab, maxFilters int, allowRoot bool) Target {
+func GenTarget(r *vh.Rng, v *Vocab, maxFilters int, allowRoot bool) Target {
 	var t Target
 	if allowRoot && r.Chance(0.04) {
 		return t // "."
@@ -325,7 +325,7 @@ func genTarget(r *vh.Rng, v *vocab, maxFilters int, allowRoot bool) Target {
 	return t
 }
 
-func (t Target) classify() []string {
+func (t Target) Classify() []string {
 	var ks []string
 	if len(t.Steps) == 0 {
 		ks = append(ks, "target:root")
